@@ -55,7 +55,7 @@ def compare_stream(spec, sampler, ref):
     if len(raw) > bound:
         raise Violation("does-not-end", f"more than {bound} items")
     got = []
-    sizes = [spec["N"]] + [c["size"] for c in spec["configs"]]
+    sizes = [im.main_size(spec)] + [c["size"] for c in spec["configs"]]
     total = sum(sizes)
     for f, g in raw:
         if not 0 <= g < total:
@@ -194,7 +194,7 @@ def enumerate_small(tier):
 @st.composite
 def loader_spec(draw, tier):
     s = draw(im.full_spec(max_configs=3, min_configs=1))
-    s["main_kind"] = draw(st.sampled_from(["seq", "epoch", "kd_dist"]))
+    s["main_kind"] = draw(st.sampled_from(["seq", "epoch", "kd_dist", "kd_dist2"]))
     s["workers"] = draw(st.sampled_from([0, 0, 0, 2])) if tier == "thorough" else 0
     return s
 
